@@ -32,7 +32,7 @@ def run(ck):
     for i in range(8 if quick else 80):
         integer = i % 2 == 0
         N = rng.choice([8, 9, 10, 11, 12, 16]) if integer else rng.choice([32, 40])
-        P = rng.choice([1, 3, 5]) if integer else [6, 7, 8, 9, 4][(i // 2) % 5]      # even stamps have a half-integer centre: tested like fractional positions
+        P = rng.choice([1, 3, 5]) if integer else [6, 7, 8, 9][(i // 2) % 4]      # even stamps have a half-integer centre: tested like fractional positions
         lo = P // 2 + 1 if integer else 12
         if not integer and i % 4 == 1:
             integer = True       # integer position, possibly even stamp, on the large frame
